@@ -1,6 +1,7 @@
 package conserve
 
 import (
+	"fmt"
 	"go/ast"
 	"go/types"
 	"sort"
@@ -372,4 +373,227 @@ func checkAbsorb(p *core.Prog, r *core.Report, info *types.Info, fd *ast.FuncDec
 		return
 	}
 	r.Ok("PUSH-ABSORB", k, pos, "drops a "+dropT+" inside the kept "+keptT+" when "+guard)
+}
+
+// PushComplement decides PUSH-COMPLEMENT: two consecutive complemented members
+// of a join are fused as complement(join(pushed.inner, held.inner)) - the
+// reading order of the reverse strand - unconditionally.
+func PushComplement(p *core.Prog, r *core.Report) {
+	r.Rule("PUSH-COMPLEMENT", "the Complemented+Complemented clause of (*LocationList).Push is straight-line code that starts a list with the pushed location's inner location, pushes the held location's inner location onto it with the same force flag, and stores Complemented{Join(list...)}: join(complement(A), complement(B)) = complement(join(B, A)) whatever the coordinates", 1)
+	info := p.Info(core.PkgGts)
+	fd := p.FuncDecl(core.PkgGts, "LocationList.Push")
+	if fd == nil || fd.Body == nil {
+		r.Und("PUSH-COMPLEMENT", "gts.(*LocationList).Push|anchor", "-", "anchor-unresolved")
+		return
+	}
+	key := "gts.(*LocationList).Push|Complemented+Complemented"
+	var outer *ast.TypeSwitchStmt
+	for _, st := range fd.Body.List {
+		if ts, ok := st.(*ast.TypeSwitchStmt); ok {
+			outer = ts
+		}
+	}
+	if outer == nil {
+		r.Und("PUSH-COMPLEMENT", key, p.Pos(fd.Pos()), "no type switch on the held location")
+		return
+	}
+	v := switchVar(outer)
+	var cl *ast.CaseClause
+	for _, cc := range outer.Body.List {
+		c := cc.(*ast.CaseClause)
+		if ns := names(caseTypes(info, c)); len(ns) == 1 && ns[0] == "Complemented" {
+			cl = c
+		}
+	}
+	if cl == nil || len(cl.Body) != 1 {
+		r.Bad("PUSH-COMPLEMENT", key, p.Pos(fd.Pos()), "no clause (of one statement) for a held Complemented")
+		return
+	}
+	is, ok := cl.Body[0].(*ast.IfStmt)
+	if !ok || is.Init == nil || is.Else != nil {
+		r.Und("PUSH-COMPLEMENT", key, p.Pos(cl.Pos()), "the clause is not `if u, ok := loc.(Complemented); ok { ... }`")
+		return
+	}
+	u := ""
+	if as, ok := is.Init.(*ast.AssignStmt); ok && len(as.Lhs) == 2 {
+		if id, ok := as.Lhs[0].(*ast.Ident); ok {
+			u = id.Name
+		}
+	}
+	// straight-line body
+	for _, st := range is.Body.List {
+		switch st.(type) {
+		case *ast.AssignStmt, *ast.ExprStmt, *ast.ReturnStmt, *ast.DeclStmt:
+		default:
+			r.Bad("PUSH-COMPLEMENT", key, p.Pos(st.Pos()), "the clause branches: the order in which the two complemented members are fused depends on a condition (reverse-strand members are read in list order, not in coordinate order)")
+			return
+		}
+	}
+	s := newSym(p, info, is.Body)
+	// the list literal and the push
+	var first, second, force string
+	var stored ast.Expr
+	for _, st := range is.Body.List {
+		switch x := st.(type) {
+		case *ast.AssignStmt:
+			if len(x.Rhs) == 1 {
+				if cl, ok := ast.Unparen(x.Rhs[0]).(*ast.CompositeLit); ok && core.NamedOf(info.TypeOf(cl)) == core.PkgGts+".LocationList" && len(cl.Elts) >= 1 {
+					e := cl.Elts[0]
+					if kv, ok := e.(*ast.KeyValueExpr); ok {
+						e = kv.Value
+					}
+					first, _ = s.leaf(e)
+				}
+				if sel, ok := ast.Unparen(x.Lhs[0]).(*ast.SelectorExpr); ok && sel.Sel.Name == "Data" {
+					stored = x.Rhs[0]
+				}
+			}
+		case *ast.ExprStmt:
+			if c, ok := x.X.(*ast.CallExpr); ok && core.IsCallTo(info, c, core.PkgGts+".LocationList.Push") && len(c.Args) == 2 {
+				second, _ = s.leaf(c.Args[0])
+				force, _ = s.leaf(c.Args[1])
+			}
+		}
+	}
+	wantFirst, wantSecond := u+".Location", v+".Location"
+	okStore := false
+	if cl, ok := ast.Unparen(stored).(*ast.CompositeLit); ok && core.NamedOf(info.TypeOf(cl)) == core.PkgGts+".Complemented" && len(cl.Elts) == 1 {
+		e := cl.Elts[0]
+		if kv, ok := e.(*ast.KeyValueExpr); ok {
+			e = kv.Value
+		}
+		if c, ok := ast.Unparen(e).(*ast.CallExpr); ok && core.IsCallTo(info, c, core.PkgGts+".Join") && c.Ellipsis.IsValid() {
+			okStore = true
+		}
+	}
+	switch {
+	case first != wantFirst || second != wantSecond:
+		r.Bad("PUSH-COMPLEMENT", key, p.Pos(is.Pos()), "the fused list is ["+first+", "+second+"], must be ["+wantFirst+", "+wantSecond+"]")
+	case force != "force":
+		r.Bad("PUSH-COMPLEMENT", key, p.Pos(is.Pos()), "the inner push does not pass the caller's force flag on")
+	case !okStore:
+		r.Bad("PUSH-COMPLEMENT", key, p.Pos(is.Pos()), "the clause does not store Complemented{Join(list...)}")
+	default:
+		r.Ok("PUSH-COMPLEMENT", key, p.Pos(is.Pos()), "complement(join("+first+", "+second+"))")
+	}
+}
+
+// PartialCarry decides PARTIAL-CARRY: no coordinate method of Ranged drops
+// the receiver's partial markers on any return.
+func PartialCarry(p *core.Prog, r *core.Report, methods ...string) {
+	r.Rule("PARTIAL-CARRY", "every return of a coordinate method of gts.Ranged hands back the receiver, a method of the receiver, a zero-length Between, or a value whose Partial is computed from the receiver's Partial (directly, or by `x.Partial = ...` under a test of it): no path rebuilds the range from its bare coordinates", len(methods))
+	info := p.Info(core.PkgGts)
+	for _, m := range methods {
+		fn := "gts.Ranged." + m
+		fd := p.FuncDecl(core.PkgGts, "Ranged."+m)
+		if fd == nil || fd.Body == nil {
+			r.Und("PARTIAL-CARRY", fn+"|anchor", "-", "anchor-unresolved")
+			continue
+		}
+		r.Fn(fn)
+		recv := info.Defs[fd.Recv.List[0].Names[0]]
+		asg := core.Assigns(info, fd.Body)
+		par := core.Parents(fd.Body)
+		carry := map[types.Object]bool{}
+		// whole-value or Partial mention of the receiver / a carrying variable
+		var mentions func(e ast.Node) bool
+		mentions = func(e ast.Node) bool {
+			found := false
+			ast.Inspect(e, func(n ast.Node) bool {
+				if found {
+					return false
+				}
+				switch x := n.(type) {
+				case *ast.SelectorExpr:
+					if o := core.ObjOf(info, x.X); o != nil && (o == recv || carry[o]) {
+						if x.Sel.Name == "Start" || x.Sel.Name == "End" || x.Sel.Name == "Len" {
+							return false // bare coordinates do not carry the markers
+						}
+						found = true
+						return false
+					}
+				case *ast.Ident:
+					if o := core.ObjOf(info, x); o != nil && (o == recv || carry[o]) {
+						found = true
+					}
+				}
+				return true
+			})
+			return found
+		}
+		for changed := true; changed; {
+			changed = false
+			for o, as := range asg {
+				if carry[o] {
+					continue
+				}
+				for _, a := range as {
+					var e ast.Node = a.RHS
+					if a.RHS == nil && a.Call != nil {
+						e = a.Call
+					}
+					if e != nil && mentions(e) {
+						carry[o], changed = true, true
+					}
+				}
+			}
+			// x.Partial = ... / x.Partial.F = ... with a carrying RHS or under a carrying condition
+			ast.Inspect(fd.Body, func(n ast.Node) bool {
+				as, ok := n.(*ast.AssignStmt)
+				if !ok {
+					return true
+				}
+				for i, l := range as.Lhs {
+					root := rootIdent(l)
+					sel, isSel := ast.Unparen(l).(*ast.SelectorExpr)
+					if root == nil || !isSel || !strings.Contains(types.ExprString(sel), ".Partial") {
+						continue
+					}
+					o := core.ObjOf(info, root)
+					if o == nil || carry[o] {
+						continue
+					}
+					c := i < len(as.Rhs) && mentions(as.Rhs[i])
+					for m := par[ast.Node(as)]; m != nil && !c; m = par[m] {
+						if is, ok := m.(*ast.IfStmt); ok && mentions(is.Cond) {
+							c = true
+						}
+						if sw, ok := m.(*ast.SwitchStmt); ok && sw.Tag != nil && mentions(sw.Tag) {
+							c = true
+						}
+					}
+					if c {
+						carry[o], changed = true, true
+					}
+				}
+				return true
+			})
+		}
+		for k, ret := range core.Returns(fd.Body) {
+			key := fmt.Sprintf("%s|return#%d", fn, k+1)
+			if len(ret.Results) != 1 {
+				continue
+			}
+			e := ast.Unparen(ret.Results[0])
+			if c, ok := e.(*ast.CallExpr); ok && core.IsConversion(info, c) && core.NamedOf(info.TypeOf(c)) == core.PkgGts+".Between" {
+				r.Ok("PARTIAL-CARRY", key, p.Pos(ret.Pos()), "collapses to a zero-length site")
+				continue
+			}
+			// every Ranged-valued operand of a Join/Order/literal must carry
+			okAll := mentions(e)
+			if c, ok := e.(*ast.CallExpr); ok && (core.IsCallTo(info, c, core.PkgGts+".Join") || core.IsCallTo(info, c, core.PkgGts+".Order")) {
+				okAll = true
+				for _, a := range c.Args {
+					if !mentions(a) {
+						okAll = false
+					}
+				}
+			}
+			if okAll {
+				r.Ok("PARTIAL-CARRY", key, p.Pos(ret.Pos()), "markers come from the receiver")
+			} else {
+				r.Bad("PARTIAL-CARRY", key, p.Pos(ret.Pos()), "this return builds `"+types.ExprString(e)+"` from bare coordinates: a partial range that takes this path comes back complete")
+			}
+		}
+	}
 }
